@@ -61,7 +61,7 @@ PROPS = {
                     "(c03_raced_*). The driver changes a conn's state through Life.step only (a disabled step is a MODEL-ERROR), so "
                     "the compared states are the states the theorems quantify over. Tie: differential execution of the REAL engine "
                     "(AddConn incl. of a closed conn, acceptor, DialAsync with scripted connect/SO_ERROR and a connect completing "
-                    "inside DialAsync, poller loop, N closers released from a barrier, deadlines, injected write/flush/sendfile/read "
+                    "inside DialAsync, poller loop with synchronous reads or read tasks incl. a hang-up arriving while a task is busy, N closers released from a barrier, deadlines, injected write/flush/sendfile/read "
                     "errors, overflow, Stop) on virtual descriptors plus real loopback sockets, with direct oracles on the "
                     "implementation alone",
             "note": "proof, partial: goroutine-level atomicity of each model step (critical-section predicates) and the enabling "
@@ -79,7 +79,7 @@ PROPS = {
         "facts": [srcgen.src_facts],
         "runs": [LIFE_RUN],
         "oracles": ["c03-"], "cs": cs_life.C03_CS,
-        "rule": "case = (epoll mode, NPoller, write-buffer limit, history over up to four conns of kinds added/dialed/UDP listener+"
+        "rule": "case = (epoll mode, NPoller, write-buffer limit, listener, AsyncReadInPoller, history over up to four conns of kinds added/dialed/UDP listener+"
                 "sessions/accepted/really dialed: traffic, scripted kernel answers, dial outcomes, k concurrent closers with distinct "
                 "errors, deadlines, operations after close, Stop); distinct by hash of (configuration, op kinds with flags/answers/"
                 "closer counts/dial outcome/timer cause); non-trivial iff a conn was closed, dialed or hit by an event",
